@@ -9,7 +9,7 @@ RULE = ('generated calls (ints, floats, strs, tuples, None, nested lists) keyed 
         'then writer session -> exit -> reader session over file/dir/sqlite archives; non-trivial = an item with keyword permutation, typed keys, a sentinel or ignore')
 KMS = [('raw', {}), ('raw', {'typed': True}), ('string', {}), ('string', {'typed': True}), ('string', {'sentinel': True}), ('pickle', {}), ('picklep', {}),
        ('md5', {}), ('md5', {'typed': True, 'sentinel': True}), ('sha256', {}), ('string', {'flat': False}), ('pickle', {'flat': False, 'typed': True}),
-       ('raw', {'sentinel': True}), ('dill2', {})]
+       ('raw', {'sentinel': True}), ('dill2', {}), ('stringr', {}), ('stringu', {'typed': True})]
 import hashlib
 def _alt_algorithms():
     """named algorithms outside hashlib.algorithms_guaranteed (served by OpenSSL through hashlib.new only)"""
